@@ -191,6 +191,8 @@ def sweep(run, drv, info, scratch_dir, thorough):
             for name, a, k in S.hand_calls(kind, subj):
                 if not hasattr(cls, name):
                     continue
+                k = dict(k)
+                must_ok = k.pop("__must_ok__", False) and kind in ("td", "lazy", "tc")
                 pred = preds.get((cname, name), ("absent", False, False, False))
                 tag = "hand" + ("+inplace" if k.get("inplace") else "") + ":" + ",".join(str(x)[:12] if isinstance(x, (str, tuple, int)) else type(x).__name__ for x in a)
                 obs = one_call(kind, name, a, k, tag)
@@ -200,6 +202,15 @@ def sweep(run, drv, info, scratch_dir, thorough):
                     structural_seen.add(name)
                 if pred[0] == "writer" and obs["L"]["out"] == "ok":
                     run.count("sweep.writer_ok_under_lock", name)
+                if must_ok:
+                    # "in-place value writes stay possible": the write goes through on the unlocked twin, so it must on the locked subject
+                    if obs["U"]["out"] == "ok" and obs["L"]["out"] != "ok":
+                        run.oracle_fail("sweep", {"class": cname, "method": name, "variant": tag},
+                                        f"in-place write {name}({tag}) returns normally on the unlocked twin but raises '{obs['L']['out']}' on the locked {cname}",
+                                        f"inplace-refused:{cname}.{name}")
+                    else:
+                        run.oracle_ok("sweep")
+                        run.count("sweep.inplace_must_ok", f"{name}:{obs['L']['out']}")
                 judge(run, kind, cname, name, tag, pred, obs, None)
             # 3. every structural row of the table for this class was seen restructuring the twin at least once?
             for (c, n), p in preds.items():
